@@ -149,6 +149,9 @@ _aug("C11", " + TLC: MC_OsTraps (the real OS image executed by TLC on the specif
 _aug("C33", " + TLC: MC_KbdDisp (the echo program through the real OS image on the specification's machine under every placement of up to 2/3 lock-held steps; safety and termination under weak fairness)",
      " MC_KbdDisp model-checks, inside the specification, the echo program running through the real OS image while the keyboard or display lock is held during any choice of up to 2 (thorough: 3, two input bytes) instruction steps: every queued byte appears exactly once and in order unless the run went through one of the two transcribed try_write deviations (the known findings), the output is always a prefix of the expected one while no deviation occurred, and under weak fairness every run halts (liveness checked by TLC).")
 
+_aug("C13", " + TLC: MC_Run (every sequence of up to 4/7 run-style calls over a program with nested calls, with and without breakpoints)",
+     " MC_Run model-checks, inside the specification, every sequence of up to 4 (thorough: 7) run-style calls (limits 0/1/2/5, step_over, step_out, run_while(pc # a), run; no breakpoint, a PC breakpoint, a register breakpoint) over a program with a loop and nested subroutine calls: every segmentation ends in the state and instruction count of the unbroken run; a limit executes exactly n instructions unless a halt or breakpoint intervenes; step_over / step_out end at / below the starting depth; a breakpoint is reported only after an executed step.")
+
 def main():
     props = [json.loads(l) for l in open(os.path.join(ROOT, "properties.jsonl"))]
     done = sorted(check.CHECKS)
